@@ -250,4 +250,33 @@ def dedupInto : List Obst → List Obst → List Obst
 def filterObstacles (meets : List Pt → Prim → Bool) (n : Net) (obs : List Obst) : List Obst :=
   dedupInto [] ((mapObstacles meets n obs).flatMap (·.2))
 
+/-! ### Several live networks derived from one another
+
+  `copy.deepcopy(network)`, `copy.deepcopy(scenario)`, a pickle round trip, `create_from_lanelet_network(network)` and
+  `create_from_lanelet_list(network.lanelets)` leave the SOURCE alive next to the copy; both are then used further.
+  A world is the list of the live networks (slot = position); an operation acts on one slot, a fork appends the copy
+  of one slot.  The copy is a value of its own (`__deepcopy__` (:1302-1317) deep-copies every attribute, in particular
+  the dict `_buffered_polygons`; `_create_strtree` (:1565-1597) re-binds that dict to a freshly built one): no
+  operation on one slot can change another. -/
+
+inductive WOp where
+  | on (k : Nat) (o : Op)            -- operation `o` on the network in slot `k`
+  | fork (k : Nat) (f : Nat → Nat)   -- a copy of slot `k` (fresh objects `f`) becomes the new last slot; slot `k` stays
+
+def wstep (w : List Net) : WOp → Res (List Net)
+  | .on k o => match w[k]? with
+    | some n => match step n o with
+      | .ok n' => .ok (w.set k n')
+      | .error e => .error e
+    | none => .error .key
+  | .fork k f => match w[k]? with
+    | some n => .ok (w ++ [copyNet f n])
+    | none => .error .key
+
+def wrun : List Net → List WOp → Res (List Net)
+  | w, [] => .ok w
+  | w, o :: os => match wstep w o with
+    | .ok w' => wrun w' os
+    | .error e => .error e
+
 end CR.Index
